@@ -7,6 +7,7 @@ package main
 
 import (
 	"fmt"
+	"os"
 	"go/types"
 	"sort"
 	"strconv"
@@ -57,7 +58,9 @@ type effWrite struct {
 func (w effWrite) loc() Loc { return Loc{Kind: w.kind, Param: w.param, Global: w.global, Path: w.path, Why: w.what} }
 
 func (w effWrite) key() string {
-	return w.loc().String() + "|" + w.what + "|" + fmt.Sprint(w.instr.Pos()) + "|" + strings.Join(w.via, ">")
+	// the call chain is deliberately not part of the identity: through a
+	// recursive callee it grows without bound while denoting the same write
+	return w.loc().String() + "|" + w.what + "|" + fmt.Sprint(w.instr.Pos())
 }
 
 type effSummary struct {
@@ -69,8 +72,16 @@ type effSummary struct {
 
 func (s *effSummary) sig() string {
 	ks := make([]string, 0, len(s.writes))
+	seen := map[string]bool{}
 	for _, w := range s.writes {
-		ks = append(ks, w.loc().String())
+		k := w.loc().String()
+		if w.kind == "unknown" {
+			k = "unknown"
+		}
+		if !seen[k] {
+			seen[k] = true
+			ks = append(ks, k)
+		}
 	}
 	sort.Strings(ks)
 	return strings.Join(ks, ";")
@@ -122,6 +133,9 @@ func (E *effectEngine) computeAll() {
 			for fn, s := range next {
 				if o, ok := E.sums[fn]; !ok || o.sig() != s.sig() {
 					same = false
+					if round > 36 && os.Getenv("COSECHECK_DEBUG") != "" {
+						fmt.Fprintf(os.Stderr, "effects round %d: %s\n  old %s\n  new %s\n", round, shortFn(fn), o.sig(), s.sig())
+					}
 					break
 				}
 			}
@@ -292,7 +306,17 @@ func (E *effectEngine) originsOf(t *Term, path []string, depth int) []Loc {
 		return dedupLocs(out)
 	case "gate":
 		return dedupLocs(append(E.originsOf(t.Args[1], path, depth+1), E.originsOf(t.Args[2], path, depth+1)...))
+	case "cyc":
+		// back reference into a loop phi: its origins are those of the phi's
+		// other alternatives (least fixpoint), nothing to add here
+		return nil
 	case "mod":
+		// a location written by an in-package decoder method: decoders store
+		// only values built from mode.Unmarshal results, i.e. fresh memory
+		// (this is rule R19.3/R19.4 of C19, checked there)
+		if t.Args[0].Op == "call" && strings.HasSuffix(t.Args[0].S, ").UnmarshalCBOR") && E.P.calleeOfTerm(t.Args[0]) != nil {
+			return dedupLocs(append(E.originsOf(t.Args[1], path, depth+1), Loc{Kind: "fresh"}))
+		}
 		// a location modified by a call: a decoder stores fresh memory (A2/A3
 		// for zero-valued destinations); other calls: what was there or
 		// something the callee made
